@@ -218,10 +218,40 @@ def c01(ctx):
 DOCUMENTED = {"RefResolutionError", "UnknownType"}
 
 
+C03_CORPUS = [
+    # (draft, schema, instance): directed cases from the property text and from past findings
+    ("d7", {"items": True, "additionalItems": False}, [1]),
+    ("d6", {"items": True, "additionalItems": False}, [1, 2]),
+    ("d3", {"dependencies": {"a": "b"}}, {"a": 1}),
+    ("d4", {"multipleOf": 0.5}, 10 ** 400),
+    ("d7", {"multipleOf": 10 ** 400}, 1.5),
+    ("d3", {"divisibleBy": 0.5}, 10 ** 400),
+    ("d7", {"$id": "http://["}, 1),
+    ("d4", {"id": "http://["}, 1),
+    ("d7", {"properties": {"a": {"$ref": "http://["}}}, {"a": 1}),
+    ("d7", {"minLength": 2.0}, "a"),
+    ("d6", {"maxItems": 0.0}, [1]),
+    ("d7", {"enum": []}, 1),
+    ("d4", {"items": [], "additionalItems": False}, [1]),
+    ("d3", {"extends": []}, 1),
+    ("d3", {"type": []}, 1),
+    ("d3", {"disallow": []}, 1),
+    ("d7", {"dependencies": {"a": []}}, {"a": 1}),
+    ("d7", {"required": []}, {}),
+    ("d7", {"patternProperties": {"": {}}, "additionalProperties": False}, {"a": 1}),
+]
+
+
 def c03(ctx):
     res = ctx.res
-    for _ in range(ctx.n(2500)):
-        tag, schema, store, wdocs, info = gen_case(ctx, refs=ctx.r.random() < 0.25, malformed=0.5)
+    corpus = list(C03_CORPUS)
+    for _ in range(ctx.n(2500) + len(corpus)):
+        if corpus:
+            tag, schema, inst0 = corpus.pop()
+            store, wdocs, info = {}, {}, {"kinds": []}
+        else:
+            inst0 = None
+            tag, schema, store, wdocs, info = gen_case(ctx, refs=ctx.r.random() < 0.25, malformed=0.5)
         try:
             ok = accepted(tag, schema)
         except Exception as exc:        # noqa: BLE001  check_schema itself crashed: C11's business
@@ -238,7 +268,7 @@ def c03(ctx):
             res.disagree("SHAPE", {"cls": tag, "schema": schema}, sp, "accepted",
                          "check_schema accepts a schema that Spec.shapedR rejects: the no-crash theorems do not cover it")
         for _ in range(2):
-            inst = ctx.g.instance_for(tag, schema) if ctx.r.random() < 0.8 else ctx.g.value(2)
+            inst = inst0 if inst0 is not None else (ctx.g.instance_for(tag, schema) if ctx.r.random() < 0.8 else ctx.g.value(2))
             fc = ctx.r.choice([None, None, "draft"])
             case = {"cls": tag, "schema": schema, "inst": inst, "budget": None, "fc": fc,
                     "resolver": {"store": [[k, v] for k, v in store.items()]}}
@@ -272,7 +302,7 @@ def c03(ctx):
                                  {"cls": tag, "schema": schema, "inst": inst, "fc": fc, "entry": ep})
             res.note(key, True, {"cls": tag, "schema": schema, "inst": inst})
             # correspondence on the stop reason (format checkers with oracle formats are left to C12)
-            if fc is None:
+            if fc is None and "http://[" not in json.dumps(schema):     # unparsable URIs are outside the model
                 m, i = val_pair(ctx, case, wdocs)
                 if corr.diff(verdict_of(m), verdict_of(i)):
                     # outside the domain (a reference designating a non-schema, e.g. `null`, which the
